@@ -60,13 +60,24 @@ def run(ctx):
             fc = tu.flat_config(ctx.rng)
             fc.update({"K": 3, "W": w_, "lens": [w_ - 1 + ctx.rng.randint(120, 170)]})
             cfgs.append(fc)
+        # two regimes that are exact copies up to a shift, one cluster too many: the donors of a repopulation TIE exactly
+        cfgs += tu.twin_regime_configs(ctx.rng, 2 if ctx.quick() else 8)
         # a run that really repopulates a cluster (random donor draws): searched for, not hoped for
         rc = tu.find_repopulating_config(ctx.rng)
         if rc is not None:
             cfgs.append(rc)
             ctx.count("repopulating_config_found")
 
+    heap_noise = []
+
     def call(cfg, nproc, mp):
+        # unrelated activity earlier in the process: objects of assorted sizes that stay alive (and some that do not), so
+        # that the addresses the next call's objects get - and every iteration order derived from identity hashes - differ
+        # from one call to the next, as they do in a long-lived process
+        heap_noise.append([bytearray(r0.randint(16, 400)) for _ in range(r0.randint(0, 60))])
+        _junk = [object() for _ in range(r0.randint(0, 200))]
+        if len(heap_noise) > 40:
+            del heap_noise[r0.randrange(20)]
         series = tu.config_data(cfg)
         kw = tu.config_kwargs(cfg)
         kw["num_processors"] = nproc
@@ -75,7 +86,7 @@ def run(ctx):
             os.environ["CUPCAKE_ENABLE_MULTIPROCESSING"] = "1"
         try:
             tu.seed_all(cfg["seed"])
-            with tu.quiet(), warnings.catch_warnings():
+            with tu.quiet(), tu.ambient(cfg), warnings.catch_warnings():
                 warnings.simplefilter("ignore")
                 r = fast_ticc.ticc_joint_labels(series, **kw) if cfg["joint"] else fast_ticc.ticc_labels(series[0], **kw)
             return tu.result_fields(r)
@@ -119,6 +130,14 @@ def run(ctx):
         if d:
             ctx.violation("impl-violation", f"two runs from equal RNG states differ in {d}", cfg, {"site": "reproducible"})
         ctx.case(("again", repr(sorted(cfg.items()))), nontrivial=True)
+        if cfg.get("twin_regimes"):
+            ctx.count("twin_regime_configs")
+            for _rep in range(4):
+                d = diff(ref, call(cfg, 1, False))
+                if d:
+                    ctx.violation("impl-violation", f"two runs from equal RNG states (unrelated allocations in between) differ in {d}",
+                                  cfg, {"site": "reproducible"})
+                    break
         # (b) worker counts x multiprocessing switch
         combos = [(1, True), (2, False), (4, True)] if ctx.quick() else [(n, m) for n in (1, 2, 4, 8) for m in (False, True)]
         for nproc, mp in combos:
